@@ -56,7 +56,7 @@ var budgets = map[string]budget{
 	"C16": {400000, 16000000, 120, 2400},
 	"C17": {300000, 12000000, 120, 2400},
 	"C18": {300000, 12000000, 120, 2400},
-	"C20": {600000, 24000000, 120, 2400},
+	"C20": {400000, 16000000, 120, 2400},
 }
 
 var levels = map[string]string{"C18": "fault_enumeration"}
